@@ -44,7 +44,7 @@ fn main() {
                     }
                     continue;
                 }
-                println!("{}\n// inputs: {:?}\n// ------", ast::print_prog(&c.prog), c.inputs);
+                println!("{}\n// inputs: {:?}\n// ------", c22::text_of(&c), c.inputs);
             }
         }
         p => {
